@@ -17,7 +17,8 @@ Transact == [op |-> "Transact", c |-> "c1"]
 KA == K(97)
 KB == K(98)
 
-SetupDef == << AddTable("c1", T1, "h", "") >>
+T2 == "tbl2"
+SetupDef == << AddTable("c1", T1, "h", ""), AddTable("c1", T2, "h", "") >>
 MenuDef == SetToSeq(
      { Put(T1, it) : it \in Items } \cup { Del(T1, k, FALSE) : k \in Keys } \cup { Get(T1, k) : k \in Keys }
   \cup { Upd(T1, k, SetU("v", Val(":n")), One(":n", Num(1))) : k \in Keys }
@@ -26,6 +27,8 @@ MenuDef == SetToSeq(
          Describe("c1", T1), Transact,
          BW(<<Req(T1, "put", KA @@ [v |-> Num(1)])>>), BW(<<Req(T1, "del", KA)>>),
          BW(<<Req(T1, "put", KA), Req(T1, "del", KB)>>),
+         BW(<<Req(T1, "put", KA), Req(T2, "put", KB), Req(T1, "put", KB @@ [v |-> Num(1)]), Req(T2, "del", KA)>>),   \* two tables, two requests each
+         BW(<<Req(T2, "put", KA @@ [v |-> Num(1)]), Req(T1, "del", KA)>>),
          Fail("c1", "none"), Fail("c1", "internal"), Fail("c1", "deprecated"), Fail("c1", "deactivate") } )
 BoundDef(d) == TRUE
 =============================================================================
